@@ -43,6 +43,17 @@ fn foreign_scalars() -> Vec<(u8, char)> {
         let mut buf = [0u8; 4];
         assert!(c.encode_utf8(&mut buf).as_bytes().contains(b), "scalar for byte {b:#x} does not contain it");
     }
+    // foreign *characters* whose code point, truncated to 8 or 16 bits, would look like a base64
+    // digit (U+0141 -> 'A', U+1F641 -> 'A', U+042B -> '+', ...), plus a few other planes
+    for &d in rv::ALPHABET.iter() {
+        for hi in [0x100u32, 0x400, 0x1F600, 0x10000, 0xFF00] {
+            if let Some(c) = char::from_u32(hi | u32::from(d)) {
+                let mut buf = [0u8; 4];
+                let first = c.encode_utf8(&mut buf).as_bytes()[0];
+                v.push((first, c));
+            }
+        }
+    }
     v
 }
 
@@ -88,7 +99,7 @@ pub fn run(ctx: &mut Ctx) {
     crate::reference::vlq::self_check(&mut srng, 5000);
     crate::reference::mappings::self_check(&mut srng, 500);
     let foreign = foreign_scalars();
-    ctx.note("foreign_byte_values_covered", json!(foreign.len()));
+    ctx.note("foreign_characters_in_pool(222 byte values + code points that truncate to a base64 digit)", json!(foreign.len()));
     ctx.note("byte_values_impossible_in_utf8_not_covered", json!(["0xC0", "0xC1", "0xF5..0xFF"]));
 
     let total = ctx.size(120_000, 1_000_000);
